@@ -45,6 +45,7 @@ func c09KeyTag(k *dns.DNSKEY) uint16 {
 
 var c09D struct {
 	stateReadErr, tombCorrupt bool
+	tombOpenErr               bool
 	state                     TrustAnchors
 	tombs                     Tombstones
 	resolveErr                bool
@@ -75,6 +76,10 @@ func c09ReadState(filename string) (TrustAnchors, error) {
 func c09ReadTombs(filename string) (Tombstones, error) {
 	if c09D.tombCorrupt {
 		return nil, errCorruptTombstones
+	}
+	if c09D.tombOpenErr {
+		// the file is there but cannot be opened (EACCES, EIO, EMFILE ...)
+		return nil, errVerif
 	}
 	out := Tombstones{}
 	for k, v := range c09D.tombs {
@@ -167,11 +172,12 @@ func c09Trusted(r *Resolver, pk string) bool {
 // VerifC09_RefreshStep
 //
 //verif:entry tier=quick,thorough
-//verif:bound key universe k1,k2,k3 (k3 collides with k1's tag); configured anchors {k1} or {k1,k2}; on-disk state: tag-1000 slot in {absent, k1 Valid, k1 Missing, k1 Revoked, k3 AddPend}, tag-2000 slot in {absent, k2 Valid, k2 AddPend}, symbolic FirstSeen; tombstone store: any subset of {k1,k2} or corrupt; state file readable or not; fetched DNSKEY set: any subset of {k1, k1+REVOKE, k2, k3} or a fetch error; authentication verdict ok / revocation-only / failed; revocation self-signature verdict; staging error; either or both file writes failing; arbitrary clock (one refresh assumed to take < 1 h); memory starts as after a restart (trust = configured keys)
+//verif:bound key universe k1,k2,k3 (k3 collides with k1's tag); configured anchors {k1} or {k1,k2}; on-disk state: tag-1000 slot in {absent, k1 Valid, k1 Missing, k1 Revoked, k3 AddPend}, tag-2000 slot in {absent, k2 Valid, k2 AddPend}, symbolic FirstSeen; tombstone store: any subset of {k1,k2}, corrupt, or present but not openable; state file readable or not; fetched DNSKEY set: any subset of {k1, k1+REVOKE, k2, k3} or a fetch error; authentication verdict ok / revocation-only / failed; revocation self-signature verdict; staging error; either or both file writes failing; arbitrary clock (one refresh assumed to take < 1 h); memory starts as after a restart (trust = configured keys)
 func VerifC09_RefreshStep() {
 	d := &c09D
 	*d = struct {
 		stateReadErr, tombCorrupt   bool
+		tombOpenErr                 bool
 		state                       TrustAnchors
 		tombs                       Tombstones
 		resolveErr                  bool
@@ -216,6 +222,7 @@ func VerifC09_RefreshStep() {
 		d.tombs[dnskeyMaterialFP(k2)] = &Tombstone{DNSKey: c09Key(2, true)}
 	}
 	d.tombCorrupt = vBool("disk.tombCorrupt")
+	d.tombOpenErr = !d.tombCorrupt && vBool("disk.tombOpenErr")
 	// the wire
 	d.resolveErr = vBool("fetch.err")
 	if vBool("fetch.k1") {
@@ -253,7 +260,7 @@ func VerifC09_RefreshStep() {
 		vAssume(vClockAt(n-1).Sub(vClockAt(c0)) < time.Hour)
 	}
 
-	if d.tombCorrupt {
+	if d.tombCorrupt || d.tombOpenErr {
 		vAssert("unreadable-revocation-store-fails-closed", len(r.rootKeys) == 0 && len(d.writes) == 0)
 		return
 	}
